@@ -1,6 +1,5 @@
 """C01  Every parse result is a valid derivation of the user's grammar (ak/llparser.py)"""
 import json
-import os
 import random
 import re
 
@@ -63,7 +62,7 @@ TRUSTED_BASE = [
 ]
 ASSUMPTIONS = ["grammars use plain productions (templates are C05's subject)",
                "parse_text_sound: no literal / end-of-line pattern is empty (lexicon_ok), $END$ is not a token name of the "
-               "configuration, the start symbol of the call is not a helper symbol (true for every name without '__')",
+               "configuration (a per-call start symbol with '__' is rejected by parse itself since /repo 2909322)",
                "texts are str (lists of lines are C04's subject)"]
 MODELLED = ("ak/llparser.py: LLParser.__init__ name assertions, _create_productions (plain), _factorize_productions and helpers "
             "incl. the smart undo and their assertions, _get_nullables, _calc_first_sets, _calc_follow_sets, _make_llone_table, "
@@ -693,25 +692,6 @@ def _is_session(case):
     return case.get("kind") == "session"
 
 
-def _helper_start_registered():
-    """trees rooted at a helper symbol obtained through parse(start_symbol_name='X__S00') are judged by the oracle only once
-    the finding is registered in KNOWN_FINDINGS.json (or VERIF_C01_HELPER_START=1); see c01.notes.md"""
-    global _known_cache
-    if os.environ.get("VERIF_C01_HELPER_START") == "1":
-        return True
-    if _known_cache is None:
-        try:
-            here = os.path.dirname(os.path.dirname(os.path.dirname(os.path.abspath(__file__))))
-            data = json.load(open(os.path.join(here, "KNOWN_FINDINGS.json")))
-            _known_cache = any(e.get("property") == ID and e.get("signature") == HELPER_START_SIG for e in data.get("findings", []))
-        except Exception:
-            _known_cache = False
-    return _known_cache
-
-
-_known_cache = None
-
-
 def _impl_session(case):
     from ak import llparser
     g = case["g"]
@@ -878,8 +858,8 @@ def _oracle_session(case, obs):
             start = ctor_start if s is None else s
             t = case["texts"][i]
             if "__" in start:
-                if _helper_start_registered():
-                    out.append((HELPER_START_SIG, f"{what}: parse({t['text']!r}, start_symbol_name={start!r}) returned a tree rooted at {r[1][1]!r}"))
+                # fixed finding (/repo 2909322): a per-call start symbol with '__' must be rejected, never answered with a tree
+                out.append((HELPER_START_SIG, f"{what}: parse({t['text']!r}, start_symbol_name={start!r}) returned a tree rooted at {r[1][1]!r}"))
                 continue
             if t["toks"] is None:
                 out.append(("invalid-tree", f"{what}: {label} parse({t['text']!r}) returned a tree although the text contains a character no token matches"))
@@ -1159,19 +1139,21 @@ LEVEL_TEXT = ("Full (model level; all user grammars, all token lists, all iterat
               "own prods_map), ProdsTemplate grammars (C05).  "
               "PropsTok.v (token_filter clause, full at model level): parse_text_sound: for every tokenizer configuration (ordered "
               "pattern alternatives, span tokens, synonyms, keywords), every skip_tokens argument, grammar, text and per-call start "
-              "symbol that is not a helper symbol, if the constructor accepts and parse(text) returns a tree then the text was "
+              "symbol (None or any name), if the constructor accepts and parse(text) returns a tree then the text was "
               "tokenised completely, every token is the product of a pattern match named by synonyms-then-keywords of its own "
               "class (span tokens: synonym only), and the leaves are exactly the tokens whose final name is not in skip_tokens, "
               "names and values, in order; root = the start symbol of the call; valid_tree, no_helper, kinds_ok as above.  "
-              "token_names_are_terminals, parse_sound_at (any per-call start symbol outside the helper symbols), "
+              "token_names_are_terminals, parse_at_sound (parse on a token list with any per-call start symbol, no hypothesis on "
+              "it), per_call_dunder_start_rejected (a per-call start symbol with '__' -- every helper symbol -- is answered with "
+              "AssertionError for every parser and input), parse_sound_at (the loop started at any non-helper symbol), "
               "start_without_dunder_is_no_helper.  Examples: parse_text_sound_nonvacuous (keywords on renamed classes, a decoy "
               "entry, skipped non-renamed class, comments, a common-prefix group, a LexicalError, a per-call start symbol), "
-              "per_call_helper_start_refuted (parse(text, start_symbol_name='S__S00') returns a tree rooted at a helper symbol: "
-              "the assertion only asks for a key of prods_map; oracle signature helper-start-symbol-per-call, judged once "
-              "registered).  State between parse() calls and between parsers made from the same productions object is not a "
+              "per_call_helper_start_rejected (regression shape of the fixed finding helper-start-symbol-per-call: S__S00 is a key "
+              "of prods_map and is rejected; the oracle reports any tree obtained with such a start symbol).  State between parse() calls and between parsers made from the same productions object is not a "
               "theorem (the model is a pure function): it is tested by the sessions of the correspondence run.")
 LEVEL_NOTE = ("Trusted: Coq kernel + vm_compute; fidelity of the hand model coq/LLP (checked by correspondence on every run, not "
               "proved); the token list handed to the model equals the implementation's non-skipped tokens; the harness.  Finding "
               "fixed during this work: reserved '__' names were accepted inside productions and as start symbol (/repo 6e22989), "
-              "regression cases in corpus/C01.  The tokenizer model coq/C04/Model.v is imported (not owned) by C01/RunTok.v.")
+              "regression cases in corpus/C01; parse(text, start_symbol_name='X__S00') returned a tree rooted at a helper symbol "
+              "(/repo 2909322), regression calls in corpus/C01/tokenizer_sessions.json.  The tokenizer model coq/C04/Model.v is imported (not owned) by C01/RunTok.v.")
 DESIGN_REF = "DESIGN.md section 8, C01 and Appendix A"
